@@ -313,3 +313,31 @@ def variant_edges(body, sb, vi, nvariants=2):
         if others <= set(vals):
             out.append(("e", sb, "otherwise"))
     return out
+
+
+# ---------------------------------------------------------------------------- loops
+def iterator_loops(body):
+    """for/while-let loops driven by Iterator::next / pop: [(bb of the switch on the Option discriminant,
+    role of the iterator expression, none_edges, some_edges, call site)]"""
+    out = []
+    for sb in body.switch_blocks():
+        t = body.blocks[sb]["term"]
+        r = body.role_of_operand(t["discr"])
+        if r[0] != "discr":
+            continue
+        inner = strip_role(r[1])
+        if isinstance(inner, tuple) and inner[0] == "call" and inner[1] in ("next", "pop", "next_back", "pop_front") and inner[3]:
+            none_e = variant_edges(body, sb, 0)
+            some_e = variant_edges(body, sb, 1)
+            # it is a loop if the switch block is reachable from its own Some edge
+            if some_e and sb in body.reach(some_e):
+                out.append((sb, inner[3][0], none_e, some_e, body.call_at.get(inner[4])))
+    return out
+
+
+def loop_exhaustive(body, loop):
+    """the loop body has no way out except the iterator's None edge: every path from the Some
+    edge to a return passes through the None edge (break / return inside the loop violate it;
+    continue and panics do not)"""
+    sb, it, none_e, some_e, cs = loop
+    return bool(none_e) and body.must_pass(some_e, body.return_blocks(), none_e)
